@@ -130,11 +130,21 @@ func closeThread(e *sched.Exec, w *schedfx.World, name string) sched.Thread {
 }
 
 // K1: explicit sync || Close (one or two callers)
-func explicitVsClose(nClose int) *sched.Scenario {
+func explicitVsClose(nClose int) *sched.Scenario { return explicitVsCloseSeg(nClose, 0) }
+
+// explicitVsCloseSeg: with seg > 0 the explicit sync is a segmented one (the
+// traversal is cut into segments of seg advertisements, the block hook naming
+// the start of the next): letting a running sync finish means all segments.
+func explicitVsCloseSeg(nClose int, seg int64) *sched.Scenario {
 	name := fmt.Sprintf("K1-explicit-sync-vs-%dclose", nClose)
+	var so []dagsync.Option
+	if seg > 0 {
+		name = fmt.Sprintf("K11-segmented(%d)-explicit-sync-vs-%dclose", seg, nClose)
+		so = append(so, dagsync.SegmentDepthLimit(seg))
+	}
 	return &sched.Scenario{Name: name,
 		Setup: func(e *sched.Exec) ([]sched.Thread, func()) {
-			w := schedfx.New(e, schedfx.Options{Pubs: 1, ChainLen: 3, Announce: true})
+			w := schedfx.New(e, schedfx.Options{Pubs: 1, ChainLen: 3, Announce: true, SubOpts: so})
 			p, ch := w.Pubs[0], w.Chains[0]
 			p.Publisher.SetRoot(ch.Cids[2])
 			ths := []sched.Thread{{Name: "E", Fn: func() {
@@ -163,6 +173,19 @@ func explicitVsClose(nClose int) *sched.Scenario {
 					// a sync that got going finishes; one that came too late is refused
 					if res != "ok" && res != "err:shutdown" {
 						out = append(out, sched.Finding{Sig: name + ":running-explicit-sync-did-not-finish", Msg: "explicit sync ended with " + res})
+					}
+					// and "finished" means the whole requested segment of the
+					// chain (head 2 down to, excluding, the synced ad 0)
+					if res == "ok" {
+						var hooks []string
+						for _, o := range e.Obs() {
+							if strings.HasPrefix(o, "hook general pub0 ") {
+								hooks = append(hooks, strings.TrimPrefix(o, "hook general pub0 "))
+							}
+						}
+						if fmt.Sprint(hooks) != "[block[2] block[1]]" {
+							out = append(out, sched.Finding{Sig: name + ":explicit-sync-reported-success-without-finishing", Msg: fmt.Sprintf("SyncAdChain returned success but the block hook saw %v, want [block[2] block[1]]", hooks)})
+						}
 					}
 				}
 			}
@@ -537,7 +560,7 @@ func postClose(call string) *sched.Scenario {
 
 func TestCheck(t *testing.T) {
 	r := vp.New("C15", "model_checking",
-		"scenarios on the real subscriber built with the instrumentation overlay (gated in-memory publisher, chain of 2-3 signed ads): K1 explicit sync (queried head) || Close, with one and with two concurrent Close callers; K7 explicit syncs of two publishers || Close; K8 announce-triggered syncs of two publishers under a limit of one at a time || Close; K9 an explicit sync whose block hook makes a nested explicit sync of another publisher || Close; K2 announce-triggered sync || Close; K10 the subscriber with a libp2p host and a real gossipsub topic, an announcement published on the topic (it reaches the subscriber through the receiver's pubsub watcher goroutine) || Close (thorough: two Close callers); K6 two announcements of one publisher and Close with every block already local, the first sync held in its block hook until nothing else can move (a sync still pending when Close cancels must be abandoned); K3 listener registration and cancellation || Close; K5 each of 11 entry points called after Close has returned. All interleavings at the scheduling points (locks, atomics, channel operations, selects, spawns, requests, hook calls, observations) up to the preemption bound, so Close starts at every point of a sync. 'Blocks forever' is decided by quiescence with the caller not finished. states = distinct decision states; transitions = scheduling steps; traces = executions of the real code.",
+		"scenarios on the real subscriber built with the instrumentation overlay (gated in-memory publisher, chain of 2-3 signed ads): K1 explicit sync (queried head) || Close, with one and with two concurrent Close callers (a sync that reports success must have reported every block); K11 the same with a segmented sync (segment size 1); K7 explicit syncs of two publishers || Close; K8 announce-triggered syncs of two publishers under a limit of one at a time || Close; K9 an explicit sync whose block hook makes a nested explicit sync of another publisher || Close; K2 announce-triggered sync || Close; K10 the subscriber with a libp2p host and a real gossipsub topic, an announcement published on the topic (it reaches the subscriber through the receiver's pubsub watcher goroutine) || Close (thorough: two Close callers); K6 two announcements of one publisher and Close with every block already local, the first sync held in its block hook until nothing else can move (a sync still pending when Close cancels must be abandoned); K3 listener registration and cancellation || Close; K5 each of 11 entry points called after Close has returned. All interleavings at the scheduling points (locks, atomics, channel operations, selects, spawns, requests, hook calls, observations) up to the preemption bound, so Close starts at every point of a sync. 'Blocks forever' is decided by quiescence with the caller not finished. states = distinct decision states; transitions = scheduling steps; traces = executions of the real code.",
 		"cooperative scheduling at synchronization operations; priority selects in source order; one publisher",
 		"goroutine leak = a goroutine of the bubble with a go-libipni frame after Close and cleanup",
 	)
@@ -550,7 +573,7 @@ func TestCheck(t *testing.T) {
 	if vp.Thorough() {
 		bound = 3
 	}
-	scs := []*sched.Scenario{pendingAnnounceVsClose(), twoExplicitVsClose(), limitedAnnouncesVsClose(), nestedSyncVsClose(), pubsubAnnounceVsClose(1), explicitVsClose(1), explicitVsClose(2), announceVsClose(), listenerVsClose()}
+	scs := []*sched.Scenario{pendingAnnounceVsClose(), twoExplicitVsClose(), limitedAnnouncesVsClose(), nestedSyncVsClose(), pubsubAnnounceVsClose(1), explicitVsCloseSeg(1, 1), explicitVsClose(1), explicitVsClose(2), announceVsClose(), listenerVsClose()}
 	if vp.Thorough() {
 		scs = append(scs, pubsubAnnounceVsClose(2))
 	}
@@ -564,7 +587,7 @@ func TestCheck(t *testing.T) {
 	}
 	start := time.Now()
 	weight := func(i int) float64 { // the K5 scenarios are nearly sequential and cheap
-		if i < 5 {
+		if i < 6 {
 			return 5
 		}
 		return 1
